@@ -27,6 +27,24 @@ _DATA: dict[str, bytes] = {}
 
 
 def _case(args):
+    import signal
+
+    from checks._watchdog import Hang
+
+    def _on_alarm(signum, frame):
+        raise Hang("loading did not finish within 60 s")
+
+    signal.signal(signal.SIGALRM, _on_alarm)
+    signal.alarm(60)
+    try:
+        return _case_inner(args)
+    except Hang as e:
+        return ("leak", ("hang", "from_stream", args[1], _spec_repr(args[1], args[2]), os.path.basename(args[0])), 60.0)
+    finally:
+        signal.alarm(0)
+
+
+def _case_inner(args):
     path, kind, spec, fetch = args
     from pyoda_time.time_zones._tzdb_date_time_zone_source import TzdbDateTimeZoneSource
     from pyoda_time.utility import InvalidPyodaDataError
